@@ -194,6 +194,9 @@ func (fr *FuncRun) callStatic(f *Frame, st *State, c *ssa.CallCommon, callee *ss
 	if v, ok := fr.specialStatic(f, st, c, callee, full, args, pos); ok {
 		return v
 	}
+	if fc := fr.eng.contracts.externs[full]; fc != nil {
+		return fr.applyContract(f, st, fc, callee, nil, args, pos, callee.Name())
+	}
 	if strings.HasPrefix(pkg, repoPrefix) {
 		if fc := fr.eng.contracts.lookupFunc(callee); fc != nil && !fr.eng.inlineAll {
 			return fr.applyContract(f, st, fc, callee, nil, args, pos, callee.Name())
